@@ -50,7 +50,7 @@ def special(engine, rng, n):
     for i in range(n):
         b = base(engine, "x%04d" % i)
         k1, k2 = rng.sample(KINDS, 2)
-        variant = i % 8
+        variant = i % 9
         pre = [{"do": "Emit", "src": "pl:s1"}] * rng.randint(0, 2)
         feats = {"live-apply", "reconf"}
         if variant == 0:      # stale: plan A, plan + apply B, then apply A
@@ -100,6 +100,15 @@ def special(engine, rng, n):
                            {"do": "OnHook", "tag": "provisioning.running-checked", "n": 1, "steps": [{"do": "Start"}]},
                            {"do": "Apply", "force": False, "n": 1}, {"do": "AwaitCalls", "ms": 8000}]
             feats |= {"start-between-checks"}
+        elif variant == 8:    # the pipeline is waiting out a recovery back-off (status Recovering): still a pipeline with a run
+            # to come - an apply needs authorisation, and with it has to end the recovery cleanly first
+            b["sources"][0].update(read_err_at=1, read_err="verif: source read failed", fault_runs=1, gated=False)
+            b["max_retries"], b["min_delay_ms"], b["max_delay_ms"] = 2, 1500, 2000
+            k1 = rng.choice(KINDS)
+            steps = [{"do": "WaitStatus", "tag": "Recovering", "ms": 5000}, {"do": "Plan", "tag": k1, "k": 1},
+                     {"do": "Apply", "force": (i // 9) % 2 == 1, "n": 1}, {"do": "AwaitCalls", "ms": 8000},
+                     {"do": "Sleep", "ms": 2200}]
+            feats |= {"apply-while-recovering"}
         elif variant == 2:    # a store operation of the apply fails
             steps = pre + [{"do": "Plan", "tag": k1, "k": 1}, {"do": "Apply", "force": True}]
             b["store_faults"] = [{"op": rng.choice(["set", "commit", "begin"]), "at": rng.randint(3, 12), "key": ""}]
@@ -152,7 +161,7 @@ def nontrivial(sc, tr):
         return None
     call = next(e for e in tr if e["ev"] == "ApplyCall")
     before = [e for e in tr if e["n"] < call["n"]]
-    return (sc["engine"], tuple(f for f in sc["features"] if f in KINDS + ["stale", "concurrent-apply", "held-apply", "apply-fails", "restart-fails", "inplace-partial-fail", "start-during-apply", "start-between-checks"]),
+    return (sc["engine"], tuple(f for f in sc["features"] if f in KINDS + ["stale", "concurrent-apply", "held-apply", "apply-fails", "restart-fails", "inplace-partial-fail", "start-during-apply", "start-between-checks", "apply-while-recovering"]),
             rets, sum(1 for e in before if e["ev"] == "Emit"), sum(1 for e in before if e["ev"] == "SrcAck"))
 
 
@@ -175,7 +184,7 @@ def run(tier, seed):
     if quick:
         scs = scs[::2] + scs[1::6]
     chk.run(scs, name="apply-everywhere")
-    n = 48 if quick else 960
+    n = 54 if quick else 1080
     chk.run(special("v1", rng, n) + special("v2", rng, n), name="apply-special")
     # --- validate: LiveApplyTrace + DataPathTrace
     herr = [tr[0].get("scenario") for tr in chk.traces if any(e["ev"] in ("HarnessError", "ChildTimeout") for e in tr)]
